@@ -168,47 +168,77 @@ def panics(R, ctx):
     R.ok('R17.2', 'inventory', f"{len(reach)} bodies reachable from the text-form entries, {n} may-panic constructs (all guarded)", sample={'entries': entries})
 
 
+def _splits_at(x, ch):
+    """the iterator (possibly advanced: havoc wrappers) is `<text>.split(ch)`"""
+    import table as T
+    for t in T.subterms(x):
+        if len(t) == 3 and t[0] == 'call' and re.search(r'str>?::split$', t[1]) and len(t[2]) >= 2 and T.strip_refs(t[2][1]) == ('const', ch):
+            # the outermost split call decides (an inner one is the text being split)
+            return True
+        if len(t) == 3 and t[0] == 'call' and re.search(r'str>?::split$', t[1]):
+            return False
+    return False
+
+
 def parse_shape(R, ctx):
+    """decided on the decision rows of parse() (helpers inlined, so an extracted per-segment helper is the same computation)"""
     f, cg = ctx.f, ctx.cg
     b = ctx.body(r'^log_specification::LogSpecification::parse$')
-    # Ok(..) is constructed only on the edge where parse_errs.is_empty() is true
-    oks = [bb for bb in sorted(b.normal_blocks()) for s in b.blocks[bb]['stmts'] if s['k'] == 'assign' and s['place']['l'] == 0 and s['rv']['k'] == 'agg' and s['rv'].get('variant') == 'Ok']
-    empties = [(bb, t) for bb, t in b.calls() if callee_name(t) == 'std::string::String::is_empty']
-    good = False
-    for ebb, t in empties:
-        nb = t['target']
-        tt = b.blocks[nb]['term']
-        if tt['k'] == 'switch':
-            true_blk = C.switch_edge_blocks(b, nb, 1)
-            p = ctx.ip.prov(b.path)
-            is_errs = any(nm == 'parse_errs' for nm in [b.local_name(x) for x in range(len(b.locals))]) and \
-                any(b.local_name(r_) == 'parse_errs' for r_ in [arg_local(t, 0)] + [d[1]['rv']['place']['l'] for d in p.defs.get(arg_local(t, 0), []) if d[0] == 'stmt' and d[1]['rv']['k'] == 'ref'])
-            if oks and all(C.dominates(b, true_blk, o) for o in oks) and is_errs:
-                good = True
-    errs = [bb for bb, t in b.calls() if callee_name(t).endswith('log_specification::parse_err')]
-    R.check('R17.3', f"{b.path}|ok-iff-no-error-text", good and len(errs) >= 2, "Ok only on parse_errs.is_empty(); otherwise parse_err(text, spec)",
-            "LogSpecification::parse can return Ok although an error text was collected (or Err without one)", where=b.loc())
-    # within one loop iteration: after an error was recorded the segment is not pushed
-    pushes = [bb for bb, t in b.calls() if re.search(r'Vec::<T, A>::push$', callee_name(t)) and 'ModuleFilter' in ' '.join(t['callee'].get('targs', []))]
-    errsites = [bb for bb, t in b.calls() if callee_name(t).endswith(('log_specification::push_err',))]
-    ws = [(bb, t) for bb, t in b.calls() if callee_name(t).endswith('log_specification::contains_whitespace')]
-    hdr = [bb for bb, t in b.calls() if re.search(r'Split<.*> as std::iter::Iterator>::next$', callee_name(t))]
-    bad = None
-    if len(pushes) != 1:
-        bad = f"{len(pushes)} pushes of module filters"
-    else:
-        for e in errsites:
-            if C.path_exists(b, e, pushes[0], avoid=hdr):
-                bad = f"a segment that produced an error text ({b.loc(e)}) can still be pushed to the result"
-        for wbb, t in ws:
-            nb = t['target']
-            tt = b.blocks[nb]['term']
-            if tt['k'] == 'switch':
-                tb = C.switch_edge_blocks(b, nb, 1)
-                if pushes[0] in C.reachable_from(b, tb, avoid=hdr):
-                    bad = "a name containing whitespace is reported AND pushed"
-    R.check('R17.3', f"{b.path}|erroneous-segments-not-pushed", not bad and errsites and ws, f"{len(errsites)} error sites and {len(ws)} whitespace tests: none reaches the push within the iteration",
-            f"LogSpecification::parse: {bad}", where=b.loc())
+    NI = [r'log_specification::push_err$', r'log_specification::contains_whitespace$', r'log_specification::parse_err$', r'parse_level_filter$', r'level_sort$']
+    EFF = NI[:4] + [r'Vec::<T, A>::push$', r'as std::iter::Iterator>::next$']
+    I = FDI(f, effects=EFF, no_inline=NI, loop_k=ctx.k(1, 2), max_steps=60000, max_rows=60000)
+    rows = I.run(b.path, arg_names=['spec'])
+    bad_ok = bad_push = None
+    n_ok = n_err = n_errseg = n_ws = 0
+    for r in rows:
+        if r.undecided:
+            raise CheckError(f"R17.3 parse table UNDECIDED: {r.undecided}")
+        # (a) Ok only when the collected error text is empty; otherwise parse_err(text, spec)
+        empt = [(r.long(a), v) for a, v in r.cond if re.match(r'^std::string::String::is_empty\(', a)]
+        errs_empty = next((v for a, v in reversed(empt) if 'parse_errs' in a or 'String::new' in a), None)
+        is_ok = isinstance(r.result, Agg) and r.result.variant == 'Ok'
+        via_parse_err = isinstance(r.result, Sym) and re.search(r'parse_err#\d+$', r.result.n) is not None
+        if is_ok:
+            n_ok += 1
+            if errs_empty is not True:
+                bad_ok = "parse returns Ok on a path that does not test the collected error text for emptiness"
+        elif via_parse_err:
+            n_err += 1
+            if errs_empty is True and not any(e[0].endswith('push_err') for e in r.effects) and 'is_empty' in ''.join(a for a, v in empt):
+                pass
+        # (b) per comma-separated segment: an error recorded -> nothing pushed
+        seg = None
+        segs = []
+        for i, e in enumerate(r.effects):
+            nm = e[0].split('::')[-1]
+            if nm == 'next' and _splits_at(e[2]['x'][0], ','):
+                seg = {'err': False, 'push': False, 'ws': []}
+                segs.append(seg)
+            elif seg is not None:
+                if nm == 'push_err':
+                    seg['err'] = True
+                elif nm == 'contains_whitespace':
+                    seg['ws'].append(i + 1)
+                elif nm == 'push' and 'ModuleFilter' in (r.long(e[1][1]) + ' '.join(map(str, e[2]['x']))):
+                    seg['push'] = True
+        for a, v in r.cond:
+            m_ = re.search(r'contains_whitespace#(\d+)$', a)
+            if m_ and v is True:
+                for sg in segs:
+                    if int(m_.group(1)) in sg['ws']:
+                        sg['err'] = True
+                        n_ws += 1
+        for sg in segs:
+            if sg['err']:
+                n_errseg += 1
+                if sg['push']:
+                    bad_push = "a segment that produced an error text (push_err / whitespace in the name) is still pushed to the result"
+    if not (bad_ok or bad_push) and (n_ok < 2 or n_err < 2 or n_errseg < 2 or n_ws < 1):
+        raise CheckError(f"R17.3: form of parse not recognised (ok rows {n_ok}, error rows {n_err}, erroneous segments {n_errseg}, whitespace cases {n_ws})")
+    R.check('R17.3', f"{b.path}|ok-iff-no-error-text", not bad_ok, f"{n_ok} Ok rows all behind parse_errs.is_empty(); {n_err} rows return parse_err(text, spec)",
+            f"LogSpecification::parse can return Ok although an error text was collected: {bad_ok}", where=b.loc(), sample={'rows': len(rows)})
+    R.check('R17.3', f"{b.path}|erroneous-segments-not-pushed", not bad_push, f"{n_errseg} erroneous segments on {len(rows)} rows: none pushed",
+            f"LogSpecification::parse: {bad_push}", where=b.loc())
     pe = ctx.body(r'^log_specification::parse_err$')
     agg = [s for blk in pe.blocks for s in blk['stmts'] if s['k'] == 'assign' and s['rv']['k'] == 'agg' and s['rv'].get('variant') in ('Parse', 'Err')]
     R.check('R17.3', f"{pe.path}", len(agg) >= 2, "Err(FlexiLoggerError::Parse(errors, spec))", "parse_err does not build Err(Parse(..))", where=pe.loc())
